@@ -65,19 +65,70 @@ theorem Pres.deleteItemB (t : HTree) (typ : Rm) (ht : t.cow = cow) :
       · intro root _
         exact Pres.pure _ rfl
 
-/-- the write operations of a tree -/
+theorem pres_foldlM_reset (fuel : Nat)
+    (ih : ∀ id, Pres H0 cow (resetB cow fuel id) (fun _ => True)) :
+    ∀ (l : List Nat) (acc : Bool),
+      Pres H0 cow (l.foldlM (fun (acc : Bool) c => if acc then resetB cow fuel c else (pure false : M Bool)) acc)
+        (fun _ => True)
+  | [], acc => by simp only [List.foldlM_nil]; exact Pres.pure _ trivial
+  | c :: l, acc => by
+    simp only [List.foldlM_cons]
+    apply Pres.bind (Q := fun _ => True)
+    · apply Pres.ite
+      · intro _; exact ih c
+      · intro _; exact Pres.pure _ trivial
+    · intro acc' _; exact pres_foldlM_reset fuel ih l acc'
+
+theorem Pres.resetB : ∀ (fuel id : Nat), Pres H0 cow (resetB cow fuel id) (fun _ => True) := by
+  intro fuel
+  induction fuel with
+  | zero =>
+    intro id
+    unfold Cow.resetB
+    apply Pres.bind (Pres.freeNodeT _); intro _ _
+    exact Pres.pure _ trivial
+  | succ fuel ih =>
+    intro id
+    unfold Cow.resetB
+    apply Pres.rd_bind; intro nd _
+    apply Pres.bind (pres_foldlM_reset fuel ih _ _); intro go _
+    apply Pres.ite
+    · intro _
+      apply Pres.bind (Pres.freeNodeT _); intro _ _
+      exact Pres.pure _ trivial
+    · intro _; exact Pres.pure _ trivial
+
+theorem Pres.clearB (t : HTree) (add : Bool) (ht : t.cow = cow) :
+    Pres H0 cow (clearB t add) (fun r => r.1.cow = cow) := by
+  unfold Cow.clearB
+  subst ht
+  cases t.root with
+  | none => simp only []; exact Pres.pure _ rfl
+  | some r =>
+    simp only []
+    apply Pres.bind (Pres.read _); intro h _
+    apply Pres.bind (Q := fun _ => True)
+    · apply Pres.ite
+      · intro _; exact Pres.resetB _ _
+      · intro _; exact Pres.pure _ trivial
+    · intro _ _; exact Pres.pure _ rfl
+
+/-- the write operations of a tree (`Clear` is one of them) -/
 inductive WOp
   | insert (x : Item)
   | remove (typ : Rm)
+  | clear (addNodesToFreelist : Bool)
 
 def applyW (t : HTree) : WOp → M (HTree × Option Item)
   | .insert x => replaceOrInsertB t x
   | .remove typ => deleteItemB t typ
+  | .clear add => clearB t add
 
 theorem Pres.applyW (t : HTree) (op : WOp) (ht : t.cow = cow) : Pres H0 cow (applyW t op) (fun r => r.1.cow = cow) := by
   cases op with
   | insert x => exact Pres.replaceOrInsertB t x ht
   | remove typ => exact Pres.deleteItemB t typ ht
+  | clear add => exact Pres.clearB t add ht
 
 /-- **Frame theorem.** A write operation of the tree tagged `t.cow` changes no cell of the store that
     existed before, is not owned by `t.cow`, and is not parked in the free list. -/
@@ -180,5 +231,139 @@ theorem clone_sep (H : Heap) (t : HTree) (c1 c2 : Nat) (r : Nat)
     Sep H (cloneB t c1 c2).1.cow r ∧ Sep H (cloneB t c1 c2).2.cow r :=
   ⟨fun id hid => ⟨(hlive id hid).1, (hfresh id).1, (hlive id hid).2⟩,
    fun id hid => ⟨(hlive id hid).1, (hfresh id).2, (hlive id hid).2⟩⟩
+
+/-! ### what a whole history guarantees about tags -/
+
+/-- every owner tag in the store is below `k` -/
+def TagsBelow (H : Heap) (k : Nat) : Prop := ∀ id c, H.tag id = some c → c < k
+
+/-- a write by a tree whose tag is below `k` keeps all tags below `k` (tags only ever become the writer's) -/
+theorem write_tagsBelow (t : HTree) (op : WOp) (H : Heap) (k : Nat) (ht : t.cow < k) (h : TagsBelow H k) :
+    TagsBelow ((applyW t op) H).2 k ∧ ((applyW t op) H).1.1.cow = t.cow := by
+  have P := Pres.applyW (H0 := H) t op rfl H (Inv.init H t.cow)
+  refine ⟨fun id c hc => ?_, P.2⟩
+  rcases P.1.tagF id c hc with h1 | h1
+  · exact h id c h1
+  · omega
+
+/-- so the two tags `Clone` takes (the counter `k` and `k+1`) are carried by no cell: the `hfresh` hypothesis of
+    `clone_sep` holds in every store reached by writes of trees with tags below the counter -/
+theorem tagsBelow_fresh (H : Heap) (k : Nat) (h : TagsBelow H k) :
+    ∀ id, H.tag id ≠ some k ∧ H.tag id ≠ some (k + 1) := by
+  intro id
+  constructor
+  · intro e; have := h id k e; omega
+  · intro e; have := h id (k + 1) e; omega
+
+theorem tagsBelow_mono (H : Heap) (k k' : Nat) (hk : k ≤ k') (h : TagsBelow H k) : TagsBelow H k' :=
+  fun id c hc => Nat.lt_of_lt_of_le (h id c hc) hk
+
+theorem tagsBelow_init (cap : Nat) : TagsBelow (Heap.init cap) 1 := by
+  intro id c hc
+  simp [Heap.tag, Heap.get, Heap.init, HNode.empty] at hc
+
+/-! ### programs over several handles -/
+
+structure World where
+  H : Heap
+  hs : List HTree
+  next : Nat            -- the next unused owner tag
+
+inductive POp
+  | write (i : Nat) (op : WOp)
+  | clone (i : Nat)
+
+def World.step (w : World) : POp → World
+  | .write i op => match w.hs[i]? with
+    | some t => { w with H := ((applyW t op) w.H).2, hs := w.hs.set i ((applyW t op) w.H).1.1 }
+    | none => w
+  | .clone i => match w.hs[i]? with
+    | some t => { w with hs := (w.hs.set i (cloneB t w.next (w.next + 1)).1) ++ [(cloneB t w.next (w.next + 1)).2],
+                         next := w.next + 2 }
+    | none => w
+
+def World.init (degree cap : Nat) : World := ⟨Heap.init cap, [⟨degree, none, 0, 0⟩], 1⟩
+
+def World.Good (w : World) : Prop := TagsBelow w.H w.next ∧ ∀ t ∈ w.hs, t.cow < w.next
+
+theorem World.good_step (w : World) (op : POp) (h : w.Good) : (w.step op).Good := by
+  cases op with
+  | write i wop =>
+    simp only [World.step]
+    cases hi : w.hs[i]? with
+    | none => exact h
+    | some t =>
+      have ht : t.cow < w.next := h.2 t (List.mem_of_getElem? hi)
+      obtain ⟨h1, h2⟩ := write_tagsBelow t wop w.H w.next ht h.1
+      refine ⟨h1, fun t' ht' => ?_⟩
+      rcases List.mem_or_eq_of_mem_set ht' with ht' | rfl
+      · exact h.2 t' ht'
+      · rw [h2]; exact ht
+  | clone i =>
+    simp only [World.step]
+    cases hi : w.hs[i]? with
+    | none => exact h
+    | some t =>
+      refine ⟨tagsBelow_mono _ _ (w.next + 2) (by omega) h.1, fun t' ht' => ?_⟩
+      show t'.cow < w.next + 2
+      have ht'' : t' ∈ (w.hs.set i (cloneB t w.next (w.next + 1)).1) ++ [(cloneB t w.next (w.next + 1)).2] := ht'
+      simp only [List.mem_append, List.mem_singleton] at ht''
+      rcases ht'' with ht'' | rfl
+      · rcases List.mem_or_eq_of_mem_set ht'' with ht'' | rfl
+        · have := h.2 t' ht''; omega
+        · simp [cloneB]
+      · simp [cloneB]
+
+theorem World.good_run (degree cap : Nat) (ops : List POp) : (ops.foldl World.step (World.init degree cap)).Good := by
+  have gen : ∀ (ops : List POp) (w : World), w.Good → (ops.foldl World.step w).Good := by
+    intro ops
+    induction ops with
+    | nil => intro w h; exact h
+    | cons op ops ih => intro w h; exact ih _ (World.good_step w op h)
+  refine gen ops _ ⟨tagsBelow_init cap, ?_⟩
+  intro t ht; simp [World.init] at ht; subst ht; simp [World.init]
+
+/-! ### a decidable sufficient test for `Sep` (used for the non-vacuity example) -/
+
+theorem Reach.cases_head {H : Heap} {r id : Nat} (h : Reach H r id) :
+    id = r ∨ ∃ c ∈ (H.get r).children, Reach H c id := by
+  induction h with
+  | refl => exact Or.inl rfl
+  | step hra hmem ih =>
+    rename_i a c
+    rcases ih with rfl | ⟨c', hc', hr⟩
+    · exact Or.inr ⟨c, hmem, Reach.refl c⟩
+    · exact Or.inr ⟨c', hc', Reach.step hr hmem⟩
+
+/-- `p` holds on every cell within `fuel` pointer steps of `id`, and no pointer leaves that depth -/
+def allReach (H : Heap) (p : Nat → Bool) : Nat → Nat → Bool
+  | 0, id => p id && (H.get id).children.isEmpty
+  | fuel + 1, id => p id && (H.get id).children.all (allReach H p fuel)
+
+theorem allReach_sound (H : Heap) (p : Nat → Bool) : ∀ (fuel r : Nat), allReach H p fuel r = true →
+    ∀ id, Reach H r id → p id = true := by
+  intro fuel
+  induction fuel with
+  | zero =>
+    intro r h id hr
+    simp only [allReach, Bool.and_eq_true, List.isEmpty_iff] at h
+    rcases hr.cases_head with rfl | ⟨c, hc, _⟩
+    · exact h.1
+    · rw [h.2] at hc; simp at hc
+  | succ fuel ih =>
+    intro r h id hr
+    simp only [allReach, Bool.and_eq_true, List.all_eq_true] at h
+    rcases hr.cases_head with rfl | ⟨c, hc, hr'⟩
+    · exact h.1
+    · exact ih c (h.2 c hc) id hr'
+
+def sepTest (H : Heap) (cow : Nat) (id : Nat) : Bool :=
+  decide (id < H.size) && decide (H.tag id ≠ some cow) && decide (id ∉ H.free)
+
+theorem sep_of_test (H : Heap) (cow fuel r : Nat) (h : allReach H (sepTest H cow) fuel r = true) : Sep H cow r := by
+  intro id hid
+  have := allReach_sound H _ fuel r h id hid
+  simp only [sepTest, Bool.and_eq_true, decide_eq_true_eq] at this
+  exact ⟨this.1.1, this.1.2, this.2⟩
 
 end Nv.C03.Cow
